@@ -11,7 +11,8 @@
    primitives (C01/Premises.v): open after seal gives the plaintext, 16-byte tag, base64
    round trip and alphabet, the MAC is a non-empty byte string. *)
 From Kit Require Import C01.Sem C01.Concrete C01.ConcreteOk C01.Proofs_Segments C01.Proofs_Manifest
-     C01.Proofs_Header C01.Proofs_Roundtrip C01.ConcreteOk2 C01.Proofs_Concrete C01.Proofs_Oracle.
+     C01.Proofs_Header C01.Proofs_Roundtrip C01.ConcreteOk2 C01.Proofs_Concrete C01.Proofs_Oracle
+     C01.ModelX C02.ProofsX.
 
 (* The segment loop shared by Encrypt and Decrypt, for EVERY read script that ends in EOF
    (whatever the sizes of the reads, with zero-length reads, with data delivered together
@@ -220,6 +221,27 @@ Theorem C01_oracle_sound :
     (encrypt_spec C S o fk np wfk p = Some d /\ decrypt_spec C S fk d = Some p).
 Proof. exact enc_oracle_sound. Qed.
 Print Assumptions C01_oracle_sound.
+
+(* The model over readers that may return data TOGETHER with a non-EOF error (C01/ReaderX.v,
+   C01/ModelX.v — the model the correspondence check evaluates) extends the one the theorems
+   above are about: on every script of Lib/Reader.v, with any number of zero-length reads, it
+   computes the same result ... *)
+Theorem C01_extended_model_agrees :
+  forall (C : crypto) (S H : nat) (o : enc_opts) (fk np : list N)
+         (wrap : list N -> list N -> list N -> option (list N)) (sc : list rd),
+    encrypt_stream_wx C S H o fk np wrap (emb sc) = encrypt_stream_w C S H o fk np wrap sc.
+Proof. exact encrypt_stream_wx_emb. Qed.
+Print Assumptions C01_extended_model_agrees.
+
+(* ... and on the others Encrypt never ends cleanly: a source that reports a non-EOF error — alone
+   or together with data, once or for ever, at any offset — does not yield a clean stream. *)
+Theorem C01_encrypt_source_error_surfaces :
+  forall (C : crypto) (S H : nat) (o : enc_opts) (fk np : list N)
+         (wrap : list N -> list N -> list N -> option (list N)) (xs : list rdx),
+    0 < S -> xends_eof xs = false ->
+    match encrypt_stream_wx C S H o fk np wrap xs with EncStream _ SClean => False | _ => True end.
+Proof. exact source_error_surfaces_x_enc. Qed.
+Print Assumptions C01_encrypt_source_error_surfaces.
 
 From Coq Require Import String.
 Local Open Scope string_scope.
